@@ -10,7 +10,8 @@ Written from the RFCs, not from the code:
   destination, options (IHL·4 − 20 octets); the data occupies octets IHL·4 … total length.
 * RFC 8200 §3 — IPv6 header: version, traffic class (8 bits), flow label (20 bits), payload
   length, next header, hop limit, source, destination.
-* RFC 768 — UDP: source port, destination port, length (header + data, ≥ 8), checksum.
+* RFC 768 — UDP: source port, destination port, length (header + data, ≥ 8), checksum (0 = none
+  computed, IPv4 only); RFC 8200 §8.1 — over IPv6 a zero checksum is invalid (`decodeUDP6`).
 * RFC 792 / RFC 4443 §4.1 — Echo / Echo Reply: type, code, checksum, identifier, sequence number,
   data.
 
@@ -96,7 +97,10 @@ structure UdpHdr where
   checksum : Nat
   deriving Repr, DecidableEq
 
-/-- RFC 768: header and data; `none` unless 8 ≤ length ≤ octets available -/
+/-- RFC 768: header and data; `none` unless 8 ≤ length ≤ octets available.  This is the decoder
+for UDP over **IPv4**, where a checksum field of 0x0000 is well-formed: it means "no checksum
+computed" (RFC 768), so every value of the field is accepted here.  For UDP over IPv6 use
+`decodeUDP6`. -/
 def decodeUDP : Buf → Option (UdpHdr × Buf)
   | s0 :: s1 :: d0 :: d1 :: l0 :: l1 :: c0 :: c1 :: rest =>
     let len := u16 l0 l1
@@ -105,6 +109,15 @@ def decodeUDP : Buf → Option (UdpHdr × Buf)
             rest.take (len - 8))
     else none
   | _ => none
+
+/-- UDP over **IPv6** (RFC 8200 §8.1): "Unlike IPv4, the default behavior when UDP packets are
+originated by an IPv6 node is that the UDP checksum is not optional. […] IPv6 receivers must
+discard UDP packets containing a zero checksum".  A datagram whose checksum field is 0x0000 is
+therefore not a valid UDP/IPv6 datagram: `none`. -/
+def decodeUDP6 (b : Buf) : Option (UdpHdr × Buf) :=
+  match decodeUDP b with
+  | some (h, data) => if h.checksum = 0 then none else some (h, data)
+  | none => none
 
 structure IcmpEcho where
   type : Nat
